@@ -1,6 +1,8 @@
 package main
 
 import (
+	"sort"
+	"regexp"
 	"fmt"
 	"go/token"
 	"go/types"
@@ -200,8 +202,6 @@ func (w *World) clusterAnchors() *clusterAnchors {
 	chk("members handler", a.handleMembers)
 	chk("bcast helper", a.bcast)
 	chk("activate", a.activate)
-	chk("addActivated", a.addAct)
-	chk("removeActivated", a.remAct)
 	chk("Activation handler", a.hActivation)
 	chk("Deactivation handler", a.hDeact)
 	chk("ActorTopology handler", a.hTopology)
@@ -233,6 +233,9 @@ func (w *World) mapWriters(pkg string, named *types.Named, field string) map[*ss
 	isF := func(v ssa.Value) bool {
 		if u, ok := v.(*ssa.UnOp); ok {
 			if fa, ok := u.X.(*ssa.FieldAddr); ok {
+				if _, fresh := fa.X.(*ssa.Alloc); fresh {
+					return false // the object is being built by this very function (constructor)
+				}
 				return isFieldOf(fa, named, field)
 			}
 		}
@@ -1449,110 +1452,10 @@ func checkC19(w *World, r *Report) {
 		r.Check(okP, "C19.R1", fname(a.activate)+":placement", "the ActivationRequest{kind,id} goes to the agent of the member returned by the select function over FilterByKind(kind)", site,
 			"the actor is requested on another member than the chosen capable one, or with another kind/id")
 	}
-	// R2
-	{
-		wr := map[*ssa.Function]bool{}
-		for f := range w.mapWriters("cluster", a.agentT, "activated") {
-			wr[rootFn(f)] = true
-		}
-		delete(wr, a.addAct)
-		delete(wr, a.remAct)
-		r.Check(len(wr) == 0, "C19.R2", "Agent.activated:writers", "only addActivated and removeActivated write the activation table", w.fnPos(a.addAct), fmt.Sprintf("other writers: %v", fnNames(wr)))
-		// addActivated: activated[pid.ID] = pid ; removeActivated: delete(activated, pid.ID)
-		okA, okR := false, false
-		for _, in := range w.insOf(a.addAct) {
-			{
-				if mu, ok := in.(*ssa.MapUpdate); ok && w.pathOf(mu.Map) == "P0.activated" && w.pathOf(mu.Key) == "P1.ID" && w.pathOf(mu.Value) == "P1" {
-					okA = true
-				}
-			}
-		}
-		for _, in := range w.insOf(a.remAct) {
-			{
-				if c, ok := in.(*ssa.Call); ok {
-					if args, isD := isBuiltinCall(c, "delete"); isD && w.pathOf(args[0]) == "P0.activated" && w.pathOf(args[1]) == "P1.ID" {
-						okR = true
-					}
-				}
-			}
-		}
-		if okA {
-			ag := w.FGI(a.addAct)
-			upd := make([]bool, len(ag.ins))
-			for i, in := range ag.ins {
-				if _, isU := in.(*ssa.MapUpdate); isU {
-					upd[i] = true
-				}
-			}
-			present, absent := w.lookupEdges(ag, "P0.activated")
-			if len(present) > 0 {
-				okA = actionOnEdge(ag, absent, upd)
-				// nothing but "already known" keeps an announced activation out of the table
-				both := append(append([]Edge{}, present...), absent...)
-				for _, x := range ag.returns {
-					if !ag.OnlyVia(both, x) {
-						okA = false
-					}
-				}
-			} else {
-				okA = ag.AfterEntry(upd)
-			}
-		}
-		r.Check(okA, "C19.R2", fname(a.addAct)+":key", "addActivated records the PID under pid.ID", w.fnPos(a.addAct), "activations are not recorded under the PID's id")
-		r.Check(okR && w.FGI(a.remAct).AfterEntry(func() []bool {
-			g := w.FGI(a.remAct)
-			out := make([]bool, len(g.ins))
-			for i, in := range g.ins {
-				if c, ok := in.(*ssa.Call); ok {
-					if _, isD := isBuiltinCall(c, "delete"); isD {
-						out[i] = true
-					}
-				}
-			}
-			return out
-		}()), "C19.R2", fname(a.remAct)+":key", "removeActivated deletes the entry of pid.ID on every path", w.fnPos(a.remAct), "a deactivated actor stays in the table")
-		w.checkRow(r, row{rule: "C19.R2", fn: a.hActivation, callee: EvCall("add", a.addAct), name: "addActivated", args: []string{"P0", "P1.PID"}, why: "An announced activation is not recorded on this member."})
-		w.checkRow(r, row{rule: "C19.R2", fn: a.hDeact, callee: EvCall("rem", a.remAct), name: "removeActivated", args: []string{"P0", "P1.PID"}, why: "A deactivation does not remove the entry on this member."})
-		w.checkRow(r, row{rule: "C19.R2", fn: a.hDeact, callee: EvCall("Poison", w.Method("actor", "Engine", "Poison")), name: "Engine.Poison", args: []string{"P0.cluster.engine", "P1.PID"}, why: "Deactivate does not stop the actor."})
-		w.checkRow(r, row{rule: "C19.R2", fn: a.hTopology, callee: EvCall("add", a.addAct), name: "addActivated", args: []string{"P0", "re:P1\\.Actors\\[.*\\]\\.PID"}, loop: true,
-			excuse: func(g *FG) []Edge { return allEdges(g) }, why: "A topology sent to a late joiner is not recorded."})
-		// leave handler purges by host
-		lg := w.FGI(a.leave)
-		okL := false
-		for _, ci := range w.callsIn(a.leave, EvCall("rem", a.remAct)) {
-			n := lg.idx[ci.(ssa.Instruction)]
-			arg := w.pathOf(ci.Common().Args[1])
-			for _, f := range lg.FactsAt(n) {
-				p := w.factPos(f)
-				if (p == "("+arg+".Address==P1.Host)" || p == "(P1.Host=="+arg+".Address)") && strings.HasPrefix(arg, "next(range(P0.activated))") {
-					okL = true
-				}
-			}
-			// the loop continues after a removal
-			var nxt *ssa.Next
-			for _, in := range lg.ins {
-				if nx, ok := in.(*ssa.Next); ok {
-					nxt = nx
-				}
-			}
-			if nxt == nil || !lg.After(n, setOf(len(lg.ins), lg.idx[nxt])) {
-				okL = false
-			}
-		}
-		{
-			nx := make([]bool, len(lg.ins))
-			for i, in := range lg.ins {
-				if n, isN := in.(*ssa.Next); isN && strings.Contains(w.pathOf(n), "P0.activated") {
-					nx[i] = true
-				}
-			}
-			if !lg.AfterEntry(nx) {
-				okL = false
-			}
-		}
-		r.Check(okL, "C19.R2", fname(a.leave)+":purges-host", "when a member leaves, every activation whose PID address is the member's host is removed", w.fnPos(a.leave),
-			"activations hosted on the departed member stay resolvable on the remaining members")
-	}
+	// R2: effect based. What matters is what each handler does to the table, not which function holds the statement:
+	// an insertion is activated[x.ID] = x (directly, or through a private method that does exactly that to its
+	// parameter unless the id is already known), a removal is delete(activated, x.ID).
+	checkActivationTable(w, r, a)
 	// R3
 	{
 		g := w.FGI(a.join)
@@ -2346,4 +2249,284 @@ func spawnsFunc(w *World, v ssa.Value, fn *ssa.Function) bool {
 		}
 	}
 	return false
+}
+
+type tblEffect struct {
+	n      int
+	x      string // the PID whose entry is written: activated[x.ID]
+	direct bool
+}
+
+// activatedEffects lists what the instructions of g do to Agent.activated: insertions, removals, anything else.
+func activatedEffects(w *World, g *FG, adders, removers map[*ssa.Function]int) (adds, dels []tblEffect, other []int) {
+	isTbl := func(v ssa.Value) bool { return w.pathOf(v) == "P0.activated" }
+	for i, in := range g.ins {
+		if g.inl != nil && g.inl[i] {
+			continue
+		}
+		switch x := in.(type) {
+		case *ssa.MapUpdate:
+			if !isTbl(x.Map) {
+				continue
+			}
+			kp, vp := w.pathOf(x.Key), w.pathOf(x.Value)
+			if kp == vp+".ID" {
+				adds = append(adds, tblEffect{i, vp, true})
+			} else {
+				other = append(other, i)
+			}
+		case *ssa.Call:
+			if args, ok := isBuiltinCall(x, "delete"); ok && isTbl(args[0]) {
+				if kp := w.pathOf(args[1]); strings.HasSuffix(kp, ".ID") {
+					dels = append(dels, tblEffect{i, strings.TrimSuffix(kp, ".ID"), true})
+				} else {
+					other = append(other, i)
+				}
+				continue
+			}
+			if args, ok := isBuiltinCall(x, "clear"); ok && isTbl(args[0]) {
+				other = append(other, i)
+				continue
+			}
+			f := x.Call.StaticCallee()
+			if f == nil {
+				continue
+			}
+			if strings.Contains(f.String(), "maps.Clear") && len(x.Call.Args) > 0 && isTbl(x.Call.Args[0]) {
+				other = append(other, i)
+				continue
+			}
+			if k, ok := adders[f]; ok && k < len(x.Call.Args) && w.pathOf(x.Call.Args[0]) == "P0" {
+				adds = append(adds, tblEffect{i, w.pathOf(x.Call.Args[k]), false})
+			}
+			if k, ok := removers[f]; ok && k < len(x.Call.Args) && w.pathOf(x.Call.Args[0]) == "P0" {
+				dels = append(dels, tblEffect{i, w.pathOf(x.Call.Args[k]), false})
+			}
+		case *ssa.Store:
+			if fa, ok := x.Addr.(*ssa.FieldAddr); ok && w.pathOf(fa.X) == "P0" {
+				if nm, _ := fieldName(fa); nm == "activated" {
+					other = append(other, i)
+				}
+			}
+		}
+	}
+	return
+}
+
+// knownEdges: the edges on which activated[key] was found / not found.
+func knownEdges(w *World, g *FG, key string) (present, absent []Edge) {
+	return g.CondEdges(func(v ssa.Value) (bool, bool) {
+		if e, ok := v.(*ssa.Extract); ok && e.Index == 1 {
+			if lk, ok := e.Tuple.(*ssa.Lookup); ok && lk.CommaOk && w.pathOf(lk.X) == "P0.activated" && w.pathOf(lk.Index) == key {
+				return true, true
+			}
+		}
+		return false, false
+	})
+}
+
+// recordsUnlessKnown: on every path from the start nodes x is inserted, except where activated[x.ID] was found.
+func recordsUnlessKnown(w *World, g *FG, start []int, adds []tblEffect, x string) bool {
+	A := make([]bool, len(g.ins))
+	n := 0
+	for _, e := range adds {
+		if e.x == x {
+			A[e.n] = true
+			n++
+		}
+	}
+	if n == 0 {
+		return false
+	}
+	present, absent := knownEdges(w, g, x+".ID")
+	cut := map[Edge]bool{}
+	for _, e := range present {
+		cut[e] = true
+	}
+	rr := g.reach(start, A, cut)
+	for _, r := range g.returns {
+		if rr[r] {
+			return false
+		}
+	}
+	// a direct insertion is unconditional or sits behind "not known" of the same id
+	for _, e := range adds {
+		if e.x == x && e.direct && len(absent) > 0 && !g.OnlyVia(absent, e.n) {
+			return false
+		}
+	}
+	return true
+}
+
+func checkActivationTable(w *World, r *Report, a *clusterAnchors) {
+	agentMethods := w.MethodsOf("cluster", "Agent")
+	handler := map[*ssa.Function]bool{a.hActivation: true, a.hTopology: true, a.hDeact: true, a.leave: true, a.recv: true}
+	// summaries of the private methods that are neither Receive nor a handler
+	adders, removers := map[*ssa.Function]int{}, map[*ssa.Function]int{}
+	{
+		restore := w.noCtx()
+		for _, fn := range agentMethods {
+			if fn.Parent() != nil || handler[fn] || w.isVirtual(fn) || len(fn.Blocks) == 0 {
+				continue
+			}
+			g := w.FG(fn)
+			adds, dels, other := activatedEffects(w, g, nil, nil)
+			if len(other) > 0 || (len(adds) > 0) == (len(dels) > 0) {
+				continue
+			}
+			plain := true
+			for _, in := range g.ins {
+				switch in.(type) {
+				case *ssa.Go, *ssa.Defer:
+					plain = false
+				}
+			}
+			if !plain {
+				continue
+			}
+			k := 0
+			param := func(x string) bool {
+				var kk int
+				if _, err := fmt.Sscanf(x, "P%d", &kk); err != nil || x != fmt.Sprintf("P%d", kk) || kk <= 0 {
+					return false
+				}
+				if k != 0 && k != kk {
+					return false
+				}
+				k = kk
+				return true
+			}
+			ok := true
+			for _, e := range append(append([]tblEffect{}, adds...), dels...) {
+				if !param(e.x) {
+					ok = false
+				}
+			}
+			if !ok {
+				continue
+			}
+			x := fmt.Sprintf("P%d", k)
+			if len(adds) > 0 && recordsUnlessKnown(w, g, g.entry(), adds, x) {
+				adders[fn] = k
+			}
+			if len(dels) > 0 {
+				D := make([]bool, len(g.ins))
+				for _, e := range dels {
+					D[e.n] = true
+				}
+				if g.AfterEntry(D) {
+					removers[fn] = k
+				}
+			}
+		}
+		restore()
+	}
+	// writers: the handlers, and the methods that were recognised as "insert my parameter" / "remove my parameter"
+	{
+		var strangers []string
+		for f := range w.mapWriters("cluster", a.agentT, "activated") {
+			rt := rootFn(f)
+			if handler[rt] {
+				continue
+			}
+			if _, ok := adders[rt]; ok {
+				continue
+			}
+			if _, ok := removers[rt]; ok {
+				continue
+			}
+			strangers = append(strangers, fname(rt))
+		}
+		sort.Strings(strangers)
+		r.Check(len(strangers) == 0, "C19.R2", "Agent.activated:writers", "the activation table is written only by the Activation/ActorTopology/Deactivation/leave handlers, directly or through a method that inserts (unless known) or removes exactly its parameter", w.fnPos(a.recv),
+			fmt.Sprintf("other writers (or helpers that do more than that): %v", strangers))
+	}
+	effects := func(fn *ssa.Function) (*FG, []tblEffect, []tblEffect, []int) {
+		g := w.FGI(fn)
+		ad, de, ot := activatedEffects(w, g, adders, removers)
+		return g, ad, de, ot
+	}
+	only := func(es []tblEffect, ok func(string) bool) bool {
+		for _, e := range es {
+			if !ok(e.x) {
+				return false
+			}
+		}
+		return true
+	}
+	// Activation
+	{
+		g, ad, de, ot := effects(a.hActivation)
+		ok := len(de) == 0 && len(ot) == 0 && only(ad, func(x string) bool { return x == "P1.PID" }) && recordsUnlessKnown(w, g, g.entry(), ad, "P1.PID")
+		r.Check(ok, "C19.R2", fname(a.hActivation)+":records-the-pid", "an announced activation is recorded under its PID's id on every path, unless that id is already known; nothing else is written", w.fnPos(a.hActivation),
+			"An announced activation is not recorded on this member (or something other than \"already known\" keeps it out, or another entry is touched).")
+	}
+	// ActorTopology
+	{
+		_, ad, de, ot := effects(a.hTopology)
+		re := regexp.MustCompile(`^P1\.Actors\[.*\]\.PID$`)
+		ok := len(de) == 0 && len(ot) == 0 && len(ad) > 0 && only(ad, re.MatchString)
+		if ok {
+			g := w.FGI(a.hTopology)
+			for _, e := range ad {
+				present, absent := knownEdges(w, g, e.x+".ID")
+				_ = present
+				if e.direct && len(absent) > 0 && !g.OnlyVia(absent, e.n) {
+					ok = false
+				}
+			}
+		}
+		r.Check(ok, "C19.R2", fname(a.hTopology)+":records-each-pid", "the activations listed in a topology are recorded under their PIDs' ids; nothing else is written", w.fnPos(a.hTopology),
+			"A topology sent to a late joiner is not recorded.")
+	}
+	// Deactivation
+	{
+		g, ad, de, ot := effects(a.hDeact)
+		D := make([]bool, len(g.ins))
+		for _, e := range de {
+			D[e.n] = true
+		}
+		ok := len(ad) == 0 && len(ot) == 0 && len(de) > 0 && only(de, func(x string) bool { return x == "P1.PID" }) && g.AfterEntry(D)
+		r.Check(ok, "C19.R2", fname(a.hDeact)+":forgets-the-pid", "a deactivation removes the entry of its PID's id on every path; nothing else is written", w.fnPos(a.hDeact),
+			"A deactivation does not remove the entry on this member: a deactivated actor stays in the table.")
+		w.checkRow(r, row{rule: "C19.R2", fn: a.hDeact, callee: EvCall("Poison", w.Method("actor", "Engine", "Poison")), name: "Engine.Poison", args: []string{"P0.cluster.engine", "P1.PID"}, why: "Deactivate does not stop the actor."})
+	}
+	// leave handler purges by host
+	{
+		lg, ad, de, ot := effects(a.leave)
+		okL := len(ad) == 0 && len(ot) == 0 && len(de) > 0
+		for _, e := range de {
+			hit := false
+			for _, f := range lg.FactsAt(e.n) {
+				p := w.factPos(f)
+				if (p == "("+e.x+".Address==P1.Host)" || p == "(P1.Host=="+e.x+".Address)") && strings.HasPrefix(e.x, "next(range(P0.activated))") {
+					hit = true
+				}
+			}
+			if !hit {
+				okL = false
+			}
+			// the loop continues after a removal
+			var nxt *ssa.Next
+			for _, in := range lg.ins {
+				if nx, ok := in.(*ssa.Next); ok {
+					nxt = nx
+				}
+			}
+			if nxt == nil || !lg.After(e.n, setOf(len(lg.ins), lg.idx[nxt])) {
+				okL = false
+			}
+		}
+		nx := make([]bool, len(lg.ins))
+		for i, in := range lg.ins {
+			if n, isN := in.(*ssa.Next); isN && strings.Contains(w.pathOf(n), "P0.activated") {
+				nx[i] = true
+			}
+		}
+		if !lg.AfterEntry(nx) {
+			okL = false
+		}
+		r.Check(okL, "C19.R2", fname(a.leave)+":purges-host", "when a member leaves, every activation whose PID address is the member's host is removed", w.fnPos(a.leave),
+			"activations hosted on the departed member stay resolvable on the remaining members")
+	}
 }
